@@ -2,7 +2,7 @@
 import vlib
 from props import p2common
 
-PREFIXES = ['c05_']
+PREFIXES = ['c05_', 'c08_success_before_stage']  # a rejected Set 'is answered with an error'
 
 
 def run(ctx):
